@@ -340,4 +340,8 @@ M("validate-message-level-inverted", ["C09", "C01"], "_action.py", "        if n
 M("validate-message-uuid-dropped", ["C09", "C01"], "_action.py", "        if message.task_uuid != self.task_uuid:\n            raise WrongTask(self, message)\n", "", ".model")
 M("written-message-level-from-uuid", ["C09"], "_message.py", "        return TaskLevel(level=self._logged_dict[TASK_LEVEL_FIELD])", "        return TaskLevel(level=self._logged_dict.get(TASK_LEVEL_FIELD, [1]))", ".model")
 
+# --- mechanical whole-package rewrites (sa/transforms.py); each was confirmed to keep the 404 baseline tests passing
+for _t in ("alpha", "ifelse", "retvar"):
+    V.append({"id": "transform:" + _t, "kind": "benign", "props": ["*"], "transform": _t})
+
 VARIANTS = V
